@@ -24,3 +24,23 @@ def gen_boolweight(items):
     items.append(single_clause_guard)
     items.append(lambda: f'def fp_boolean_weight_scorer : String := "{fingerprint(f, "scorer")}"')
     items.append(lambda: f'def fp_boolean_weight_complex_scorer : String := "{fingerprint(f, "complex_scorer")}"')
+
+
+@module('PhraseScorer')
+def gen_phrasescorer(items):
+    f = 'src/query/phrase_query/phrase_scorer.rs'
+
+    def slops_reset():
+        # compute_phrase_match must start by loading the first term's positions and, when a slop is
+        # set, clearing the per-document `left_slops` state (otherwise the carried slops of the
+        # previous document leak into the next one)
+        body = ' '.join(fn_body(f, 'compute_phrase_match').split())
+        pat = (r'^\{ self\.intersection_docset \.docset_mut_specialized\(0\) \.positions\(&mut self\.left_positions\); '
+               r'if self\.has_slop\(\) \{ self\.left_slops\.clear\(\); \} \} for i in 1\.\.self\.num_terms - 1 \{')
+        if not re.search(pat, body):
+            raise Fail(f'{f}: compute_phrase_match no longer starts with loading term 0 and `if self.has_slop() {{ self.left_slops.clear(); }}`: {body[:200]!r}')
+        return D('PHRASE_LEFT_SLOPS_RESET_AT_START', 1, 'compute_phrase_match clears left_slops before folding the terms of a document')
+    items.append(slops_reset)
+    items.append(lambda: f'def fp_compute_phrase_match : String := "{fingerprint(f, "compute_phrase_match")}"')
+    items.append(lambda: f'def fp_intersection_count_with_carrying_slop : String := "{fingerprint(f, "intersection_count_with_carrying_slop")}"')
+    items.append(lambda: f'def fp_intersection_exists_with_slop : String := "{fingerprint(f, "intersection_exists_with_slop")}"')
